@@ -1,5 +1,6 @@
 """Helpers shared by the per-property check modules."""
 import re
+import os
 from vlib import facts
 from vlib.mir import Fn, callee_match, op_place, op_const, const_int
 from vlib import rules
@@ -287,3 +288,37 @@ def eq_polarity_sweep(ck, c, scope, name_pat, rule="CMP", exceptions=None):
                       "refuses when the compared values differ" if rel == "Ne" else
                       "refuses when the compared values are EQUAL (and lets them pass when they differ): %s" % d, f.loc(cx["bb"]))
     return n
+
+
+def rejecting_checks_by_module(c, scope, name_pat):
+    """{module: number of comparisons that can refuse} over the verifier-side functions of a scope"""
+    out = {}
+    for p in sorted(c.paths()):
+        if not scope.search(p) or not name_pat.search(p) or re.search(r"::tests?::|::test_", p):
+            continue
+        m = re.match(r"^<?((?:[a-z_0-9]+::)+)", p)
+        mod = (m.group(1).rstrip(":") if m else "?")
+        mm = re.search(r"(concordium_base::(?:[a-z_0-9]+::)*[a-z_0-9]+)::", p)
+        mod = mm.group(1) if mm else mod
+        # strip the function name: keep the first three path segments (crate::area::file)
+        mod = "::".join(mod.split("::")[:3])
+        for b in c.get_all(p):
+            f = Fn(b)
+            for cx in rules.comparisons(f):
+                rel, d = rules.cmp_rejects(f, cx)
+                if rel is not None:
+                    out[mod] = out.get(mod, 0) + 1
+    return out
+
+
+def rejecting_checks_floor(ck, c, scope, name_pat, spec_key, rule="CMP"):
+    """The number of refusing comparisons per verifier module does not fall below the frozen count (a deleted check leaves
+    no other trace in the shape of the code)."""
+    import json
+    path = os.path.join(os.path.dirname(os.path.dirname(os.path.abspath(__file__))), "spec", "verifier_checks.json")
+    ref = json.load(open(path)).get(spec_key, {}) if os.path.exists(path) else {}
+    cur = rejecting_checks_by_module(c, scope, name_pat)
+    for mod, nref in sorted(ref.items()):
+        ck.ob(rule, mod, "refusing-comparisons-not-fewer", cur.get(mod, 0) >= nref,
+              "%d comparisons that can refuse in the verifier functions of this module (reference %d)" % (cur.get(mod, 0), nref), "")
+    return cur
